@@ -1,0 +1,68 @@
+//go:build verif
+
+package pool
+
+import (
+	"github.com/protolambda/zrnt/eth2/beacon/altair"
+	"github.com/protolambda/zrnt/eth2/beacon/common"
+)
+
+// This file is compiled only with the build tag `verif`. It exports a read-only snapshot of the
+// SyncCommitteePool buffers, which the exported API does not expose (PackContribution and PackAggregate are
+// still stubs), so that a verification harness can observe what Reset keeps and what it drops.
+
+// VerifSyncContrib is one stored contribution together with the keys it is stored under.
+type VerifSyncContrib struct {
+	BeaconBlockRoot   common.Root
+	SubcommitteeIndex uint64
+	AggregationBits   altair.SyncCommitteeSubnetBits
+	Signature         common.BLSSignature
+}
+
+// VerifSyncSnapshot lists the buffers in the order previous, current, next slot.
+// A nil buffer is reported with Allocated false.
+type VerifSyncSnapshot struct {
+	CurrentSlot     common.Slot
+	MsgsAllocated   [3]bool
+	Msgs            [3][]altair.SyncCommitteeMessage
+	ContribsAlloc   [3]bool
+	Contribs        [3][]VerifSyncContrib
+	MsgKeysMatching bool // every message is stored under its own validator index
+}
+
+// VerifSnapshot copies the current contents of the pool.
+func (sp *SyncCommitteePool) VerifSnapshot() VerifSyncSnapshot {
+	sp.Lock()
+	defer sp.Unlock()
+	out := VerifSyncSnapshot{CurrentSlot: sp.currentSlot, MsgKeysMatching: true}
+	for i, buf := range []SyncCommitteeMessages{sp.prevMsgs, sp.currentMsgs, sp.nextMsgs} {
+		out.MsgsAllocated[i] = buf != nil
+		for k, m := range buf {
+			if m == nil {
+				out.MsgKeysMatching = false
+				continue
+			}
+			if k != m.ValidatorIndex {
+				out.MsgKeysMatching = false
+			}
+			out.Msgs[i] = append(out.Msgs[i], *m)
+		}
+	}
+	for i, buf := range []SyncCommitteeContributions{sp.prevContribs, sp.currentContribs, sp.nextContribs} {
+		out.ContribsAlloc[i] = buf != nil
+		for root, subs := range buf {
+			for subnet, list := range subs {
+				for _, c := range list {
+					if c == nil {
+						continue
+					}
+					out.Contribs[i] = append(out.Contribs[i], VerifSyncContrib{
+						BeaconBlockRoot: root, SubcommitteeIndex: subnet,
+						AggregationBits: c.AggregationBits, Signature: c.Signature,
+					})
+				}
+			}
+		}
+	}
+	return out
+}
